@@ -149,6 +149,21 @@ fn run_case(s: &mut Suite, cli: &str, aws: bool, n: usize, o: &Opts) {
 	if panicked {
 		s.rep.violate("C18:panic", "the tool panicked", replay.clone());
 	}
+	// the property's own reading of "valid option set", independent of the model: printable
+	// country, ASCII names, a key algorithm the back end can generate, distinct base names
+	let printable = |t: &str| t.bytes().all(|b| b.is_ascii_alphanumeric() || b" '()+,-./:=?".contains(&b));
+	let country = o.country.clone().unwrap_or("BR".into());
+	let alg_ok = matches!(alg_model, "p256" | "p384" | "ed25519") || (aws && matches!(alg_model, "p521" | "rsa"));
+	let names_ok = o.san.iter().all(|x| x.parse::<std::net::IpAddr>().is_ok() || x.is_ascii());
+	let valid = printable(&country) && alg_ok && names_ok;
+	if o.cert != o.ca && !o.cert.contains('/') && !o.ca.contains('/') {
+		if valid && !ok && !panicked {
+			s.rep.violate("C18:valid-options-fail", "a valid option set makes the tool exit with an error", replay.clone());
+		}
+		if !valid && ok {
+			s.rep.violate("C18:invalid-options-accepted", "an invalid option set is accepted", replay.clone());
+		}
+	}
 	let model_ok = model.starts_with("(ok ");
 	if ok != model_ok {
 		s.rep.disagree("C18:cli-outcome", "model and tool differ on success/failure for an option set", replay.clone());
